@@ -13,7 +13,8 @@ def AVERAGE(
     https://support.office.com/en-us/article/
         average-function-047bac88-d466-426c-a32b-8f33eb960cf6
     """
-    numbers = xl.flatten(numbers)
+    # Blank cells and text found in ranges are ignored.
+    numbers = list(filter(func_xltypes.Number.is_type, xl.flatten(numbers)))
 
     # If no non numeric cells, return zero (is what excel does)
     if len(numbers) < 1:
@@ -135,11 +136,13 @@ def MAX(*numbers: Tuple[func_xltypes.Number]):
     https://support.office.com/en-us/article/
         max-function-e0012414-9ac8-4b34-9a47-73e662c08098
     """
+    numbers = list(filter(func_xltypes.Number.is_type, numbers))
+
     # If no non numeric cells, return zero (is what excel does)
     if len(numbers) < 1:
         return 0
 
-    return max(filter(func_xltypes.Number.is_type, numbers))
+    return max(numbers)
 
 
 @xl.register()
@@ -150,8 +153,10 @@ def MIN(*numbers: Tuple[func_xltypes.Number]):
     https://support.office.com/en-us/article/
         min-function-61635d12-920f-4ce2-a70f-96f202dcc152
     """
+    numbers = list(filter(func_xltypes.Number.is_type, numbers))
+
     # If no non numeric cells, return zero (is what excel does)
     if len(numbers) < 1:
         return 0
 
-    return min(filter(func_xltypes.Number.is_type, numbers))
+    return min(numbers)
